@@ -285,6 +285,15 @@ PROPS = {
         "level_note": "Trusted: Coq kernel; translator for the 8*msize buffer factor and IOHDRSZ; extraction and OCaml driver; the Go harness (segment-exact fake net.Conn, hook recv.enqueued as delivery log). The loop model calls the decoder on the accumulated bytes and relies on C02's prefix-only theorem for the stale bytes behind pos; payload immutability (views are never overwritten) is checked by the harness (payload md5 at delivery vs. at the end), not proved; the client loop is proved on the model and tied through the C09/C10 client harness. Print Assumptions: closed under the global context.",
         "assumptions": ["net.Conn.Read returns between 1 and len(p) bytes of the stream in order"],
     },
+    "C06": {
+        "clauses": ["C06"],
+        "modes": [{"name": "crash", "harness": "crash", "modelcheck": None, "timeout": {"quick": 900, "thorough": 3400}},
+                  {"name": "srvseq-random", "harness": "srvseq", "modelcheck": "srvseq", "args": ["random"]}],
+        "rule": "crash search from OUTSIDE the server process: a child process hosts a scripted implementation, one with AuthOps, and Ufs on a scratch tree (unix sockets, server msize 200000); each case is one connection: (structured) the fid states {root, walked file, opened file, opened directory, clunked, removed, auth fid, opened 120-entry directory} are set up request by request, then 4-23 adversarial requests are sent in one piece so they execute concurrently - every T-message type (and R-messages sent as requests) with fids drawn from the states plus unknown/extreme numbers incl. NOFID, 32/64-bit fields from boundary tables (0, 1, msize-24+-1, 2^31, 2^32-16, 2^63, 2^64-1) or random, names from {empty, '.', '..', '/', 'a/b', '../x', NUL, invalid UTF-8, 255/256/65000+/65535 bytes}, directory reads at arbitrary offsets, negotiated msize from {24,25,26,31,32,...,200001, 2^32-1}; (structured-pipelined) the same with the setup pipelined too; (noversion) requests without Tversion/Tattach; (mutated) byte flips, truncations, size-field/16-bit-field extremes, insertions, duplicated frames on a valid session; (random) raw random bytes; some streams written 1-9 bytes at a time. The scripted implementations answer as a hash of the request: success with extreme qids/iounits, errors, 60 KB error texts, partial walks, short reads, unencodable 70000-byte stat names. After every case: child alive (exit status, stderr), Tversion probe on a fresh connection, and a bystander connection per server still answered. One case = one connection. The srvseq-random mode ties the request-path model the theorems are about to the real framework (same comparison as C04/C05).",
+        "level_text": "Coq theorems (Props/C06.v): a composition over every stage client bytes pass through, each for ALL inputs and states: the decoder never panics on any byte string (both dialects; stat records too); the receive loop hands on only well-framed messages within msize for any stream and segmentation, never reads into an empty slice, and ends (only) its own loop on a bad frame; on the request path, for EVERY request history (any message incl. R-messages, NOFID, unknown/stale/reused fids, any order, any msize >= 24) and whatever the implementation answers, every fid pointer a handler dereferences is set, NOFID/unknown fids are refused before a handler runs, the error text is sliced with a non-negative bound and the reply is a packed message of 7..msize bytes when its tag is patched; a count of 2^32-16 is refused (uint32 arithmetic); under pipelined, concurrently executing requests a fid whose creating request is unanswered is never handed to a handler, for every interleaving (and the unguarded FidGet is refuted by a 4-step schedule: the defect that was repaired); the Ufs directory window never slices out of range for any offset and count. What a theorem cannot exhibit - the Go runtime aborting the process - is observed from outside by the crash harness.",
+        "level_note": "Partial: the crash sites are the ones made explicit in the models (nil fid pointers, slice bounds of the decoder, the directory window, the error-text slice, SetTag); a Go panic at a site the models do not represent (e.g. inside os/syscall wrappers of Ufs, type assertions on SrvFid.Aux beyond the visibility guard, the stats/http code) is only searched for by the crash harness. The fid-visibility LTS is hand-written after FidNew/FidGet/retain and assumes the implementation sets a fid up before it answers success. Trusted: Coq kernel; translator for constants; extraction + OCaml driver (srvseq tie); Go harness; the operating system's process semantics for the outside observation. Print Assumptions: closed under the global context.",
+        "assumptions": ["the implementation sets up a fid (SrvFid.Aux) before it answers the creating Tattach/Tauth/Twalk with success", "the implementation itself does not panic on the requests it is handed (the scripted ones are total; Ufs is covered by the crash search and, for directory reads and paths, by C15/C18 theorems)"],
+    },
     "C19": {
         "gen": ["consts", "lockfacts"],
         "modes": [{"name": "raceload", "harness": "raceload", "modelcheck": None, "race": True, "timeout": {"quick": 600, "thorough": 2400}}],
